@@ -615,6 +615,41 @@ fn eval_diverge(c: &Check, v: &mut Verdict) {
                     return;
                 }
             }
+            if !io_in_cycle && crate::rng::fnv(c.case.program.as_bytes()) % (if c.exec_cap > 1_000_000 { 24 } else { 160 }) == 0 {
+                // Observation of the unbounded entry point itself, for a sample of silently
+                // divergent programs: run `execute` in a forked child for a short while.
+                // Real time is used only in the direction that cannot raise a false alarm:
+                // the child *returning* is the violation; having to kill it is expected.
+                use crate::isolate::{run_forked, ChildEnd};
+                let case = with_mode(&c.case, Mode::Execute, Fault::None, full.len() + 64);
+                let end = run_forked(
+                    || {
+                        let o = exec::execute(&case);
+                        format!("{}", o.events.len())
+                    },
+                    std::time::Duration::from_millis(150),
+                );
+                v.executions += 1;
+                match end {
+                    ChildEnd::Hang => v.bump("unbounded_run_still_running_when_killed"),
+                    ChildEnd::Exited(p) => {
+                        v.fail(
+                            "returned-but-divergent",
+                            0,
+                            format!("canonical run provably repeats a state (silent divergence) but `execute` returned after {} events", p),
+                        );
+                        return;
+                    }
+                    ChildEnd::Died { sig, status } => {
+                        v.fail(
+                            &crate::parent::crash_class(sig.as_deref(), Some(&status.to_string())),
+                            0,
+                            format!("`execute` of a silently divergent program died: {:?}", sig),
+                        );
+                        return;
+                    }
+                }
+            }
             if io_in_cycle {
                 // printing divergence: close the sink at output N
                 let outs: Vec<usize> = r.events.iter().enumerate().filter(|(_, e)| matches!(e, Ev::Out(_))).map(|(i, _)| i).collect();
